@@ -212,7 +212,7 @@ package history
 //@   loop 1 invariant all(j, 0, itpos, h.list[itkeys[j]] == nil || isfull(h, h.list[itkeys[j]]) || isdup(h.list[itkeys[j]], hline(h)) || appended1(h.list[itkeys[j]], hline(h)))
 
 //@ func (*Sources).Accept
-//@   props C08 C06 C01
+//@   props C08 C06 C01 C02
 //@   terminates
 //@   allow_alias h.acceptLine = *h.line shares the buffer's backing array; the buffer is not edited between Accept and LineAccepted (same run() call)
 //@   requires hvalid(h) && hdistinct(h) && h.hint != nil
@@ -223,7 +223,7 @@ package history
 //@   ensures [exactly-once] err == nil && !infer && len(strtrim(str(old(*h.line)))) > 0 ==> allkeys(k, h.list, h.list[k] == nil || isfull(h, h.list[k]) || isdup(h.list[k], str(old(*h.line))) || appended1(h.list[k], str(old(*h.line))))
 
 //@ func (*Sources).LineAccepted
-//@   props C08 C06 C01
+//@   props C08 C06 C01 C02
 //@   terminates
 //@   requires hvalid(h) && h.config != nil
 //@   ensures [returned-is-accepted] h.accepted ==> result0 && result1 == str(h.acceptLine) && result2 == h.acceptErr
